@@ -31,6 +31,13 @@ FILES = {
     "ddo/src/abstraction/dominance.rs": ["C10"],
     "ddo/src/common.rs": ["C18", "C09", "C02"],
 }
+# --examples: the shipped example programs (filter: the example's own tests; check: C16)
+EXAMPLE_FILES = {}
+for _ex, _fs in {"alp": ["model.rs", "dominance.rs"], "lcs": ["model.rs", "dominance.rs"], "max2sat": ["model.rs", "relax.rs"], "mcp": ["model.rs", "relax.rs"], "psp": ["model.rs", "ub_utils.rs"],
+                 "sop": ["model.rs", "relax.rs"], "srflp": ["model.rs", "relax.rs"], "talentsched": ["model.rs"], "tsptw": ["model.rs", "relax.rs", "dominance.rs"],
+                 "knapsack": ["main.rs"], "misp": ["main.rs"], "golomb": ["main.rs"]}.items():
+    for _f in _fs:
+        EXAMPLE_FILES[f"ddo/examples/{_ex}/{_f}"] = ["C16"]
 OPS = [
     (r"<=", "<"), (r">=", ">"), (r"(?<![<>=!-])<(?![<=])", "<="), (r"(?<![<>=!-])>(?![>=])", ">="), (r"==", "!="), (r"!=", "=="),
     (r"\+ 1\b", "+ 0"), (r"- 1\b", "- 0"), (r"\+ 1\b", "+ 2"), (r"\.min\(", ".max("), (r"\.max\(", ".min("), (r"&&", "||"), (r"\|\|", "&&"),
@@ -123,14 +130,25 @@ def worker(i, jobs, results, lock):
         rec = {"file": path, "line": line + 1, "mutation": desc, "before": old.strip(), "after": new.strip()}
         t0 = time.time()
         try:
-            rc, out = sh(["cargo", "build", "-p", "ddo", "--offline", "--features", "xgillard_ddo_verif"], repo, env, timeout=900)
-            if rc != 0:
-                rec["status"] = "does-not-compile"
-                continue
-            rc, out = sh(["cargo", "test", "--workspace", "--no-fail-fast", "--offline"], repo, env, timeout=1800)
-            if rc != 0:
-                rec["status"] = "killed-by-the-test-suite"
-                continue
+            if path.startswith("ddo/examples/"):
+                ex = path.split("/")[2]
+                rc, out = sh(["cargo", "build", "-p", "ddo", "--offline", "--release", "--example", ex], repo, env, timeout=1800)
+                if rc != 0:
+                    rec["status"] = "does-not-compile"
+                    continue
+                rc, out = sh(["cargo", "test", "-p", "ddo", "--offline", "--release", "--example", ex], repo, env, timeout=2400)
+                if rc != 0:
+                    rec["status"] = "killed-by-the-test-suite"
+                    continue
+            else:
+                rc, out = sh(["cargo", "build", "-p", "ddo", "--offline", "--features", "xgillard_ddo_verif"], repo, env, timeout=900)
+                if rc != 0:
+                    rec["status"] = "does-not-compile"
+                    continue
+                rc, out = sh(["cargo", "test", "--workspace", "--no-fail-fast", "--offline"], repo, env, timeout=1800)
+                if rc != 0:
+                    rec["status"] = "killed-by-the-test-suite"
+                    continue
             rec["status"] = "survivor"
             rec["checks"] = []
             for cid in FILES[path]:
@@ -162,10 +180,14 @@ def main():
     ap.add_argument("--n", type=int, default=100)
     ap.add_argument("--seed", type=int, default=1)
     ap.add_argument("--files", default="")
+    ap.add_argument("--examples", action="store_true")
     ap.add_argument("--out", default=os.path.join(VERIF, "mutation_report.json"))
     a = ap.parse_args()
     r = random.Random(a.seed)
     allc = []
+    if a.examples:
+        FILES.clear()
+        FILES.update(EXAMPLE_FILES)
     for path in FILES:
         if a.files and not any(f in path for f in a.files.split(",")):
             continue
